@@ -638,6 +638,16 @@ func checkC14(c *hx.Ctx) {
 			d := arr(obj(fs.Trees["chunk"]), "deltas")[0].(map[string]interface{})
 			d["patches"] = []interface{}{patchJSON(map[string]interface{}{"op": "add", "path": nil, "value": 1.0})}
 		}},
+		{"duplicate-suffix-created-in-core-index-updated-in-provisional-index", func(fs *fileSet) {
+			cr := arr(obj(fs.Trees["core-index"], "operations"), "create")[0].(map[string]interface{})
+			u := arr(obj(fs.Trees["prov-index"], "operations"), "update")
+			u[0].(map[string]interface{})["didSuffix"] = ref.HashModel(ref.SHA256, cr["suffixData"])
+		}},
+		{"duplicate-suffix-created-and-recovered-in-core-index", func(fs *fileSet) {
+			cr := arr(obj(fs.Trees["core-index"], "operations"), "create")[0].(map[string]interface{})
+			rc := arr(obj(fs.Trees["core-index"], "operations"), "recover")
+			rc[0].(map[string]interface{})["didSuffix"] = ref.HashModel(ref.SHA256, cr["suffixData"])
+		}},
 		{"duplicate-update-suffix-in-provisional-index", func(fs *fileSet) {
 			u := arr(obj(fs.Trees["prov-index"], "operations"), "update")
 			u[1] = ref.CopyTree(u[0])
